@@ -44,6 +44,7 @@ W = [
  ("fix: pow2i overflowed", "C16", "P32E2::exp10(NaR), exp2 / powf / sinh / tanh of large arguments: 'attempt to shift left with overflow' in overflow-checked builds"),
  ("fix: P32E2 mul_add keeps the bit shifted out", "C05", "P32E2 0x2778b72d.mul_add(0x202fb0a5,0x47f02b0f)=0x48000000 want 0x48000001 (exact value 2+2^-27+2^-62: the last bit of the 64-bit working sum, shifted out by the carry, was not sticky; ~2^-60 of all triples; reported by two mutant-writing sub-agents, not reached by the monitors until the constructed rounding-trap generator was added)"),
  ("fix: PxE2 mul_add keeps the bit shifted out", "C13", "PxE2<32> 0x20000129.mul_add(0x251e2b19,0x47f2e1d4)=0x48000000 want 0x48000001 (same omission as P32E2 mul_add)"),
+ ("fix: P32E2::powf returned 1 for powf(NaR, 0)", "C15", "P32E2::powf(NaR, 0)=0x40000000 and powf(1, NaR)=0x40000000, want NaR (the y == 0 / x == 1 shortcut ran before the NaR test); the monitor had exempted these two cases as an IEEE convention until two auditing sub-agents pointed at the statement's wording"),
  ("fix: P32E2::exp, exp2 and exp10 returned 0 for NaR", "C15", "P32E2::exp(NaR)=0, exp2(NaR)=0 (NaR orders below the underflow threshold)"),
  ("fix: PxE1::from_pxe2 added the raw", "C14", "PxE1<3>::from_pxe2(PxE2<6> 0x13)=0x40000000 want 0x60000000"),
 ]
